@@ -49,6 +49,17 @@ def check_case(ctx, L, ex):
     ctx.count("fault:none")
     if not report(ctx, ID, L, case.type, case.data, case.cc, case.enc, ref, obs, extra="unperturbed: every field is in range"):
         return
+    if case.type == "Response" and case.cc in L.cc_by_code and not case.meta.get("failed"):
+        # the command code handed to a response decode is a constrained value as well: reserved / vendor codes, also ones
+        # whose low half is this very command, are rejected before any layout is applied
+        for ucc in (0x20000000 | case.cc, 0x00010000 | case.cc, 0xFFFF0000 | case.cc, 0x15A, 0x80000000, None):
+            if ucc in L.cc_by_code:
+                continue
+            ref, obs = strict_pair(L, case.type, case.data, ucc, case.enc)
+            ctx.case((case.type, ucc, case.enc, case.data), True, sample={"type": "Response", "decoded_for_command_code": ucc, "hex": case.data.hex()[:80]} if ucc == 0x15A else None)
+            ctx.count("fault:unknown-command-code-argument")
+            if not report(ctx, ID, L, case.type, case.data, ucc, case.enc, ref, obs, extra=f"decoded for command code {ucc if ucc is None else hex(ucc)} instead of {case.cc:#x}"):
+                return
     for i, nv, label in faults.value_perturbations(L, case):
         ctx.add("leaf_types", case.tokens[i][1])
         if not one(ctx, L, case, {i: nv}, label):
